@@ -139,3 +139,45 @@ func Harness_C11_totality() {
 	}
 	vReach("done")
 }
+
+// Harness_C11_concat: a concatenation of two different certificates -- one with key-usage and
+// basic-constraints extensions, one with no extensions member at all, in either order -- gives
+// for each certificate the outcome and the field values of parsing it alone (nothing carries over
+// from the neighbour).
+//
+//verif:opt maxpaths=2000 reach=compared
+func Harness_C11_concat() {
+	issuer := derTLV(0x30, derTLV(0x31, derTLV(0x30, []byte{0x06, 0x03, 0x55, 0x04, 0x03}, derTLV(0x0c, []byte("ca")))))
+	subject := derTLV(0x30)
+	mk := func(serial byte, withExts bool) []byte {
+		var exts [][]byte
+		if withExts {
+			exts = append(exts, c03Ext(c03OIDKU, true, []byte{0x03, 0x02, 0x01, 0x06}))
+			exts = append(exts, c03Ext(c03OIDBC, true, []byte{0x30, 0x03, 0x01, 0x01, 0xff}))
+		}
+		tbs := c11TBS([]byte{serial}, 0x0b, issuer, subject, vU8("key-bits"), exts)
+		return c11Cert(tbs, 0x0b, []byte{1, 2})
+	}
+	a, b := mk(1, true), mk(2, false)
+	first, second := a, b
+	if vChoice("order", 2) == 1 {
+		first, second = b, a
+	}
+	both := append(append([]byte{}, first...), second...)
+	c1, e1 := ParseCertificate(first)
+	c2, e2 := ParseCertificate(second)
+	cs, err := ParseCertificates(both)
+	if c1 == nil || c2 == nil {
+		vAssert(cs == nil && err != nil, "a certificate that does not parse alone fails the concatenation")
+		return
+	}
+	vAssert(cs != nil && len(cs) == 2, "both certificates are returned")
+	vAssert((err == nil) == (e1 == nil && e2 == nil), "the concatenation has an error exactly when one of its certificates has one alone")
+	for i, alone := range []*Certificate{c1, c2} {
+		got := cs[i]
+		vAssert(got.SerialNumber.Cmp(alone.SerialNumber) == 0 && string(got.Raw) == string(alone.Raw), "certificates come back in order, each with its own bytes")
+		vAssert(got.KeyUsage == alone.KeyUsage && got.IsCA == alone.IsCA && got.BasicConstraintsValid == alone.BasicConstraintsValid && len(got.Extensions) == len(alone.Extensions),
+			"each certificate has the field values of parsing it alone: nothing carries over from its neighbour")
+	}
+	vReach("compared")
+}
